@@ -285,6 +285,13 @@ func replayProgRow(c *Check, row *Row, po progOpts) {
 			if si != nil {
 				atomic.StoreInt64(&si.n, 0)
 			}
+			if po.freshCompare && ri > 0 {
+				// the host registers its functions again before every run (a closure per request): the new
+				// registration is the one the run must call
+				for _, f := range fns {
+					m.addFunction(f)
+				}
+			}
 			obj, ok := objFromPairs(step.Obj)
 			if !ok {
 				c.fail("object field without host value: " + string(step.Obj))
